@@ -300,6 +300,9 @@ Definition witness_class (c : sclass) : bool :=
 
 (* [a2fix] = false is the code as found.  true models the proposed repair of DESIGN.md A2: the class is
    looked at before GetParsedOpcode and every class the wallet does not read returns ErrUnsupportedScript. *)
+(* error for a binding target that is not an address: "unsupported" in the repaired code *)
+Definition target_err (a2fix : bool) : errk := if a2fix then EUnsupported else EAddress.
+
 Definition parse_pk_script_gen (a2fix : bool) (s : bytes) : Outcome pkinfo :=
   let '(c, pops) := get_script_info s in
   if a2fix && negb (witness_class c) then Err EUnsupported else
@@ -321,12 +324,12 @@ Definition parse_pk_script_gen (a2fix : bool) (s : bytes) : Outcome pkinfo :=
           if lenZ s2 =? OP_DATA_20 then
             match new_pkh s2 with
             | Some a => Ok (mkpk c 0 0 std (Some a))
-            | None => Err EAddress
+            | None => Err (target_err a2fix)
             end
           else
             match new_bind s2 with
             | Some a => Ok (mkpk c 0 BindingLockedPeriod std (Some a))
-            | None => Err EAddress
+            | None => Err (target_err a2fix)
             end
       end)
   | _ => Err EUnsupported
@@ -485,11 +488,11 @@ Definition extract_address_infos_gen (e2fix e3guard : bool) (pk_ok : bytes -> bo
   end).
 
 (* switches: flip to true when the corresponding repair is committed in /repo *)
-Definition a2_fixed : bool := false.
+Definition a2_fixed : bool := true.
 Definition parse_pk_script := parse_pk_script_gen a2_fixed.
 Definition a2_err (a2fix : bool) : errk := if a2fix then EUnsupported else EInvalidHashType.
-Definition e2_fixed : bool := false.
-Definition e3_guarded : bool := false.
+Definition e2_fixed : bool := true.
+Definition e3_guarded : bool := true.
 Definition extract_address_infos := extract_address_infos_gen e2_fixed e3_guarded.
 
 (* ---------------------------------------------------------------- specification *)
